@@ -583,3 +583,44 @@ contract(
     ghost={"vars": {"last_changed": "=-1"}, "yield_check": cv_yield_check, "none_list_ty": "Node", "props": ["C05", "C08"], "frame_props": ["C14"]},
     safety_props=["C18"],
 )
+
+# --------------------------------------------------------------------------------------------
+# DictValue._re_eval (C14: repeated evaluation of the same call site)
+
+def p_generic_re_eval(I, args, kwargs, node):
+    I.ghost["parent_re_evaluated_with"] = args[1]
+    return None
+
+
+def child_re_eval(I, args, kwargs, node):
+    """child._re_eval(part, context): the sub-snapshot must see the part of the *freshly evaluated* argument under its key
+    (handing it the parent's stored old value -- whose Is()/snapshot leaves are Unmanaged wrappers -- makes a wrapper wrap itself)"""
+    child, part = args[0], args[1]
+    env = I.param_env
+    self_, value = env.lookup("self"), env.lookup("value")
+    get = _z3.Function("ChildMap_get", _so(CHILDMAP), _so(_Abs("Val")), _so(CHILD))
+    q = _z3.Const(I.ctx.fresh_name("k"), _so(_Abs("Val")))
+    from .adapters import _dget as _dg
+
+    good = _z3.Exists([q], _z3.And(_accessed(I, self_.fields["_new_value"], _SV(q, _Abs("Val"))), child.t == get(self_.fields["_new_value"].t, q),
+                                   _vt(I, part) == _dg(value.t, q)))
+    I.oblige("call-pre", f"sub-snapshot-sees-its-part-of-the-new-argument@{getattr(node, 'lineno', '?')} [C14,C06,C10,C18]", good)
+    return None
+
+
+_DP["attrs"].update({"Child._re_eval": child_re_eval})
+
+contract(
+    DV + ".DictValue._re_eval",
+    params={"self": "@DValue2", "value": "DictV", "context": "Opaque"},
+    shapes={"DValue2": Shape(DV + ".DictValue", {"_old_value": "DictV", "_new_value": "ChildMap", "_ast_node": "Node", "_context": "@Context"})},
+    callees={"GenericValue._re_eval": p_generic_re_eval},
+    requires={"decided": "self._old_value is not undefined and self._new_value is not undefined",
+              # GenericValue._re_eval raised UsageError otherwise: same keys as before
+              "same-keys": "all(dhas(value, dkeys(self._old_value)[j]) for j in range(0, len(dkeys(self._old_value))))"},
+    loops={0: Loop(index="k", ghost_modifies=[], inv={"trivial": "True"})},
+    ensures={"parent-re-evaluated-first [C14]": "parent_re_evaluated_with == value"},
+    ghost={"vars": {"parent_re_evaluated_with": "=None"}, "props": ["C14", "C06", "C10"], "light_feasibility": True},
+    frame=None,
+    safety_props=["C18"],
+)
